@@ -88,6 +88,9 @@ type ConfigService struct {
 type Service struct {
 	engine  *gin.Engine
 	clients []*ClientService
+	// mutex guards clients, Agents and Listeners: every service connection is served
+	// by a goroutine of its own, and they register and leave at any moment
+	mutex sync.Mutex
 
 	Config profile.ServiceConfig
 
